@@ -109,9 +109,18 @@ def gen_case(rng, path=None, small=False):
         chunks[k] = [rnd_chunks(rng, nd[k]), rnd_chunks(rng, F)]
         if k != 'weights_channel':
             chunks[k].append(rnd_chunks(rng, B))
+    identical = rng.random() < 0.25
+    if identical:
+        # the usual MeerKAT layout: vis, flags, weights chunked identically (weights_channel: the same on its two axes)
+        base = [rnd_chunks(rng, T), rnd_chunks(rng, F), rnd_chunks(rng, B)]
+        for k in NAMES:
+            tch = base[0] if nd[k] == T else rnd_chunks(rng, nd[k])
+            chunks[k] = [list(tch), list(base[1])] + ([list(base[2])] if k != 'weights_channel' else [])
     lost = {}
     mode = rng.choice(['none', 'few', 'some', 'half', 'all', 'one-array'])
     only = rng.choice(NAMES)
+    if identical and rng.random() < 0.7:
+        mode, only = 'one-array', rng.choice(['correlator_data', 'weights'])
     for k in NAMES:
         idxs = fx.all_chunk_indices(chunks[k])
         if path == 'v4' and k == 'flags' and not l1 and False:
@@ -124,7 +133,19 @@ def gen_case(rng, path=None, small=False):
         dims = [max(nd.values()), F]
         pre = [None if (w is not None and norm_window(w, n) and norm_window(w, n)[0] == norm_window(w, n)[1]) else w
                for w, n in zip(pre, dims)]
-    return dict(F=F, B=B, nd=nd, chunks=chunks, lost=lost, pre=pre, path=path, l1=l1, seed=rng.randint(0, 10 ** 6))
+    case = dict(F=F, B=B, nd=nd, chunks=chunks, lost=lost, pre=pre, path=path, l1=l1, seed=rng.randint(0, 10 ** 6))
+    if identical:
+        case['identical'] = True
+    if path == 'source':
+        lay = rng.choice([None, 'legacy', 'legacy', 'mixed'])
+        if lay:
+            case['layout'] = lay
+        if l1 and rng.random() < 0.6:
+            case['decoy'] = True
+        oth = rng.choice([[], [], ['before'], ['after']])
+        if oth:
+            case['others'] = oth
+    return case
 
 
 # ----------------------------------------------------------------------------- model side
@@ -246,6 +267,7 @@ def check_store(ctx, case, mout=None, tag='c06'):
     finally:
         fx.rmtree(tmp)
     pys, anylost = py_spec(case, vals)
+    check_dtypes(ctx, feats, case, out, first_blocks(case))
     impl = dict(vis=enc_vis(out['vis']), weights=np.asarray(out['weights']).astype(np.float64),
                 flags=np.asarray(out['flags']).astype(np.int64))
     if not np.array_equal(impl['weights'], np.rint(impl['weights'])):
@@ -291,7 +313,8 @@ def check_store(ctx, case, mout=None, tag='c06'):
 
 def canon(case):
     return (case['F'], case['B'], sorted(case['nd'].items()), sorted((k, v) for k, v in case['chunks'].items()),
-            sorted((k, v) for k, v in case['lost'].items()), case['pre'], case['path'], case.get('l1'))
+            sorted((k, v) for k, v in case['lost'].items()), case['pre'], case['path'], case.get('l1'),
+            case.get('layout'), case.get('decoy'), repr(case.get('others')))
 
 
 def run_cases(ctx, cases, tag='c06'):
@@ -310,6 +333,7 @@ def run_cases(ctx, cases, tag='c06'):
         ctx.count('dumps=' + ('equal' if len(set(case['nd'].values())) == 1 else 'differ'))
         ctx.count('lost=' + ('0' if nlost == 0 else '1-3' if nlost <= 3 else '4+'))
         ctx.count('l1=%d' % int(bool(case.get('l1'))))
+        count_layout(ctx, case, '')
         if 0 in case['nd'].values():
             ctx.count('an_array_without_any_dump')
 
@@ -1232,6 +1256,8 @@ def run_history(ctx, case, tag='c06h'):
                         ctx.disagree('%s;obs=%s;symptom=malformed_index_answered_wrongly' % (feats, obs), case, where, None,
                                      'an index the model refuses was answered with data that is not the selection')
                 continue
+            if out['vis'].size:
+                check_dtypes(ctx, feats, case, out, None)
             if mout is None:
                 model = spec = None
             else:
@@ -1286,7 +1312,7 @@ def self_idx(case, name, ident):
 def canon_history(case):
     return ('history', case['F'], case['B'], sorted(case['nd'].items()), sorted((k, v) for k, v in case['chunks'].items()),
             sorted((k, v) for k, v in case.get('absent0', case.get('held0', {})).items()), repr(case['steps']), case['path'],
-            case.get('l1'), case.get('store'))
+            case.get('l1'), case.get('store'), case.get('layout'), case.get('decoy'), repr(case.get('others')))
 
 
 def run_histories(ctx, cases, tag='c06h'):
@@ -1303,11 +1329,250 @@ def run_histories(ctx, cases, tag='c06h'):
         ctx.count('history_puts=' + ('0' if not nput else '1-2' if nput <= 2 else '3+'))
         ctx.count('history_dels=' + ('0' if not ndel else '1-2' if ndel <= 2 else '3+'))
         ctx.count('history_l1=%d' % int(bool(case.get('l1'))))
+        count_layout(ctx, case, 'history_')
         for s in case['steps']:
             if s[0] == 'load':
                 for e in (s[1].values() if isinstance(s[1], dict) else s[1]):
                     ctx.count('history_elt=' + elt_kind(e))
 
+
+
+# ----------------------------------------------------------------------------- round 3: dtypes, names, prefixes
+
+DT_CODE = {'uint8': 0, 'float32': 1, 'float64': 2, 'complex64': 3, 'complex128': 4}
+DECLARED = {'correlator_data': 3, 'flags': 0, 'weights': 0, 'weights_channel': 1}
+DT_TABLE = {}
+
+
+def dt_table(ctx):
+    """What the model delivers for an array whose FIRST block is (present?, cut by the window?) followed by a healthy
+    block: {(array number, present, cut): dtype code}; 'weights' = dtype of weights * weights_channel.  Without a model
+    (failing-input search) the declared dtypes."""
+    if DT_TABLE.get('ok') == bool(ctx.model_ok) and DT_TABLE:
+        return DT_TABLE
+    DT_TABLE.clear()
+    DT_TABLE['ok'] = bool(ctx.model_ok)
+    keys = [(a, pr, cut) for a in range(4) for pr in (0, 1) for cut in (0, 1)]
+    outs = None
+    if ctx.model_ok:
+        try:
+            outs = ctx.model([[602, [a, DECLARED[NAMES[a]], [[pr, cut, [[5, 0]]], [1, 0, [[7, 0]]]]]] for a, pr, cut in keys]
+                             + [[605, [DECLARED['weights'], DECLARED['weights_channel']]]])
+        except Exception:     # noqa: BLE001   (a driver built before these wires existed)
+            outs = None
+    for i, k in enumerate(keys):
+        if outs is not None and outs[i] != [-999] and outs[i][1] == [[[5, 0]], [[7, 0]]]:
+            DT_TABLE[k] = outs[i][0]
+        else:
+            DT_TABLE[k] = DECLARED[NAMES[k[0]]] if outs is None else -1
+    DT_TABLE['weights'] = outs[-1] if outs is not None else 1
+    return DT_TABLE
+
+
+def first_blocks(case):
+    """Per array: (first block of the selection present?, cut by the window?) - None if the selection is empty."""
+    dims = [max(case['nd'].values()), case['F']]
+    wins = []
+    for ax in range(2):
+        w = case['pre'][ax] if ax < len(case['pre']) else None
+        nw = norm_window(w, dims[ax]) if w is not None else []
+        wins.append(nw or [0, dims[ax]])
+    if any(lo >= hi for lo, hi in wins):
+        return None
+    res = {}
+    for name in NAMES:
+        ch = case['chunks'][name]
+        idx, cut = [], False
+        present = True
+        for ax in range(len(ch)):
+            lo, hi = wins[ax] if ax < 2 else (0, case['B'])
+            offs = fx.offsets(ch[ax])
+            if ax == 0 and lo >= offs[-1]:
+                present = False          # a phantom dump
+                idx.append(None)
+                continue
+            j = max(i for i in range(len(ch[ax])) if offs[i] <= lo)
+            idx.append(j)
+            if offs[j] != lo or hi < offs[j + 1]:
+                cut = True
+        if present and [int(i) for i in idx] in [list(map(int, l)) for l in case['lost'].get(name, [])]:
+            present = False
+        res[name] = (int(present), int(cut))
+    return res
+
+
+def check_dtypes(ctx, feats, case, out, fb):
+    """The dtype of what katdal delivers against the model's (wire_602 / wire_605)."""
+    tab = dt_table(ctx)
+    known = fb is not None
+    if fb is None:
+        fb = {n: (1, 0) for n in NAMES}
+    for n in NAMES:
+        if known:
+            ctx.count('first_block[%s]=%s%s' % (n, 'present' if fb[n][0] else 'lost', '+cut' if fb[n][1] else ''))
+    exp = {'vis': tab[(0,) + fb['correlator_data']], 'flags': tab[(1,) + fb['flags']], 'weights': tab['weights']}
+    for obs in ('vis', 'flags', 'weights'):
+        got = DT_CODE.get(str(np.asarray(out[obs]).dtype), -2)
+        if got != exp[obs]:
+            first = {'vis': 'correlator_data', 'flags': 'flags', 'weights': 'weights'}[obs]
+            ctx.disagree('%s;obs=%s;first_block=%s%s;symptom=dtype' % (feats, obs, 'n/a' if not known else 'present' if fb[first][0]
+                                                                       else 'lost', '+cut' if fb[first][1] else ''),
+                         case, str(np.asarray(out[obs]).dtype), exp[obs],
+                         'dtype of the delivered %s differs from the stored dtype' % obs, spec=exp[obs])
+
+
+def count_layout(ctx, case, pre):
+    if case['path'] == 'source':
+        ctx.count(pre + 'layout=' + str(case.get('layout') or 'prefix'))
+        if case.get('l1'):
+            ctx.count(pre + 'flags_stream=' + ('legacy' if case.get('layout') else 'prefix')
+                      + ('+decoy' if case.get('decoy') else '') + ('+others' if case.get('others') else ''))
+    if case.get('identical'):
+        lost = case.get('lost')
+        if lost is not None:
+            lv, lw = bool(lost.get('correlator_data')), bool(lost.get('weights'))
+            ctx.count(pre + 'identical_chunkings;lost_from=' + ('both' if lv and lw else 'vis_only' if lv else
+                                                                'weights_only' if lw else 'neither'))
+        else:
+            ctx.count(pre + 'identical_chunkings')
+
+
+def tie_names(ctx, given=None):
+    """get_dask_array's names: which of the four arrays of a store share a dask name (they must not), against wire_603;
+    and the model's key resolution (every key of array a resolves to array a)."""
+    from katdal.chunkstore_dict import DictChunkStore
+    rng = ctx.rng
+    cases = given or []
+    if not given:
+        for _ in range(ctx.scale(60, 600)):
+            T, F, B = rng.randint(1, 6), rng.randint(1, 5), rng.randint(1, 3)
+            same = rng.random() < 0.6
+            base = [rnd_chunks(rng, T), rnd_chunks(rng, F), rnd_chunks(rng, B)]
+            chunks = {k: ([list(c) for c in base] if same else [rnd_chunks(rng, T), rnd_chunks(rng, F), rnd_chunks(rng, B)])
+                      for k in NAMES}
+            chunks['weights_channel'] = chunks['weights_channel'][:2]
+            prefixes = {k: rng.choice(['p0', 'p0', 'p1']) for k in NAMES}
+            pre = [rnd_window(rng, T), rnd_window(rng, F)][:rng.choice([0, 1, 2])]
+            cases.append(dict(kind='names', T=T, F=F, B=B, chunks=chunks, prefixes=prefixes, pre=pre,
+                              same_dtype=rng.random() < 0.5))
+    for case in cases:
+        store = DictChunkStore()
+        dims = [case['T'], case['F']]
+        index = fx.to_slices(case['pre'])
+        arrs, names = [], []
+        for a, k in enumerate(NAMES):
+            dt = np.uint8 if case['same_dtype'] else fx.DTYPES[k]
+            d = store.get_dask_array(store.join(case['prefixes'][k], k), tuple(tuple(c) for c in case['chunks'][k]), dt,
+                                     index=index, errors='dryrun')
+            names.append(d.name)
+            win = [norm_window(w, n) if w is not None else [] for w, n in zip(case['pre'], dims)]
+            blocks = [list(map(int, i)) for i in np.ndindex(*d.numblocks)]
+            arrs.append([int(case['prefixes'][k][1:]), a, 1, case['chunks'][k], 0 if case['same_dtype'] else DECLARED[k],
+                         win, [0] * len(case['chunks'][k]), blocks])
+        impl = [[int(names[i] == names[j]) for j in range(4)] for i in range(4)]
+        ctx.traces_validated += 1
+        ctx.count('names:chunkings=' + ('identical' if case['chunks']['correlator_data'] == case['chunks']['weights'] else 'differ')
+                  + (';same_dtype' if case['same_dtype'] else ''))
+        ctx.note_case(('names', repr(sorted(case.items()))), nontrivial=True)
+        if any(impl[i][j] for i in range(4) for j in range(4) if i != j):
+            ctx.disagree('tie=dask_names;symptom=two_arrays_share_a_name', case, impl, None,
+                         'two arrays of one store carry the same dask name: their graph keys collide')
+        if ctx.model_ok and wires_present(ctx):
+            m = ctx.model([[603, arrs]])[0]
+            if m == [-999] or m[1] != impl:
+                ctx.disagree('tie=dask_names;symptom=name_equality', case, impl, None if m == [-999] else m[1],
+                             'which arrays share a dask name differs from the model', kind='tie')
+            elif any(r != [a, J] for a, (res, arr) in enumerate(zip(m[0], arrs)) for r, J in zip(res, arr[7])):
+                ctx.disagree('tie=dask_names;symptom=model_resolution', case, None, m[0],
+                             'the model resolves a key to another array / block', kind='tie')
+
+
+PFX = {None: None}
+
+
+def tie_prefixes(ctx, given=None):
+    """TelstateDataSource: the prefix under which each array is looked for, for random placements of chunk_info,
+    'prefix' and chunk_name over the telstate namespaces, against wire_604 (source_entries)."""
+    import katsdptelstate
+    from katdal.chunkstore_dict import DictChunkStore
+    from katdal.datasources import TelstateDataSource, view_l0_capture_stream
+    rng = ctx.rng
+    cases = given or []
+    SN = {0: 'sdp_l0', 5: 'sdp_l1_flags', 6: 'sdp_l1_flags_other', 3: 'sdp_cal'}
+    if not given:
+        for _ in range(ctx.scale(150, 1500)):
+            T = rng.randint(1, 4)
+            cn = {}
+            for ns in ([0, 0], [1, 0], [2, 0], [0, 5], [2, 5], [3, 0]):
+                if rng.random() < (0.5 if ns[0] == 0 else 0.15):
+                    cn[repr(ns)] = rng.randint(10, 14)
+            def ent(key, T_, F_=2):     # noqa: E306
+                return [key, rng.choice([None, None, rng.randint(20, 23)]), [[T_, F_, 1], [[T_], [F_], [1]]]]
+            l0 = [ent(k, T) for k in (0, 1, 2)] + [[3, rng.choice([None, 24]), [[T, 2], [[T], [2]]]]]
+            streams, ci = [0], {repr([0, 0]): l0}
+            st, src = {repr([2, 0]): 0}, {}
+            for s in rng.sample([3, 5, 6], rng.randint(0, 3)):
+                streams.append(s)
+                if s == 3:
+                    st[repr([2, 3])] = 2
+                else:
+                    if rng.random() < 0.9:
+                        st[repr([2, s])] = 1
+                    if rng.random() < 0.9:
+                        src[repr([2, s])] = [0] if (s == 5 or rng.random() < 0.2) else [9]
+                    if rng.random() < 0.9:
+                        ci[repr([0, s])] = [ent(1, rng.randint(1, 5), 2 if rng.random() < 0.9 else 3)]
+            rng.shuffle(streams)
+            cases.append(dict(kind='prefixes', cn=cn, st=st, src=src, ci=ci, archived=streams if rng.random() < 0.9 else None,
+                              upgrade=rng.random() < 0.85))
+    for case in cases:
+        ts = katsdptelstate.TelescopeState()
+
+        def view(ns):
+            kind, s = ns
+            return ts.view(ts.join('cb', SN[s])) if kind == 0 else ts.view('cb') if kind == 1 else ts.view(SN[s]) if kind == 2 else ts
+        for k, v in case['cn'].items():
+            view(eval(k))['chunk_name'] = 'p%d' % v
+        for k, v in case['st'].items():
+            view(eval(k))['stream_type'] = {0: 'sdp.vis', 1: 'sdp.flags', 2: 'sdp.cal'}[v]
+        for k, v in case['src'].items():
+            view(eval(k))['src_streams'] = ['sdp_l0' if x == 0 else 'sdp_l0_other' for x in v]
+        for k, v in case['ci'].items():
+            info = {}
+            for key, pfx, (shape, chunks) in v:
+                e = {'dtype': np.lib.format.dtype_to_descr(np.dtype(fx.DTYPES[NAMES[key]])), 'shape': tuple(shape),
+                     'chunks': tuple(tuple(c) for c in chunks)}
+                if pfx is not None:
+                    e['prefix'] = 'p%d' % pfx
+                info[NAMES[key]] = e
+            view(eval(k))['chunk_info'] = info
+        if case['archived'] is not None:
+            ts['sdp_archived_streams'] = [SN[s] for s in case['archived']]
+        ts.view('sdp_l0')['bls_ordering'] = np.array([('m000h', 'm000h')])
+        ts.view('sdp_l0')['sync_time'] = 1.0
+        ts.view('sdp_l0')['int_time'] = 1.0
+        ts.view(ts.join('cb', 'sdp_l0'))['first_timestamp'] = 1.0
+        try:
+            v, cb, sn = view_l0_capture_stream(ts, 'cb', 'sdp_l0')
+            src = TelstateDataSource(v, cb, sn, chunk_store=DictChunkStore(), upgrade_flags=case['upgrade'])
+            impl = sorted((NAMES.index(k), int(i['prefix'][1:])) for k, i in src.data.chunk_info.items())
+        except Exception as e:     # noqa: BLE001   (KeyError / ValueError on the unchanged tree)
+            impl = 'raises:' + type(e).__name__
+        tab = lambda d, conv: [[eval(k), conv(x)] for k, x in sorted(d.items())]     # noqa: E731
+        wire = [tab(case['cn'], int), tab(case['st'], int), tab(case['src'], list),
+                tab(case['ci'], lambda es: [[k, [] if p is None else [p], inf] for k, p, inf in es]),
+                [] if case['archived'] is None else [case['archived']], 0, int(case['upgrade'])]
+        m = ctx.model([[604, wire]])[0]
+        model = 'raises' if m == [-999] else sorted((e[0], e[1][0]) for e in m)
+        ctx.traces_validated += 1
+        nflag = sum(1 for s in (case['archived'] or []) if s in (5, 6))
+        ctx.count('prefixes:flag_streams=%d;%s' % (nflag, 'raises' if model == 'raises' else 'ok'))
+        ctx.note_case(('prefixes', repr(sorted(case.items()))), nontrivial=model != 'raises')
+        if (model == 'raises') != isinstance(impl, str) or (model != 'raises' and model != impl):
+            ctx.disagree('tie=prefixes;impl=%s;model=%s' % ('raises' if isinstance(impl, str) else 'prefixes',
+                                                            'raises' if model == 'raises' else 'prefixes'),
+                         case, impl, model, 'the prefix each array is looked for under differs from the model',
+                         kind='tie')
 
 # ----------------------------------------------------------------------------- entry points
 
@@ -1320,7 +1585,22 @@ def run_findings(ctx):
             run_cases(ctx, [w], tag='c06kf')
 
 
+W3 = {}
+
+
+def wires_present(ctx):
+    """The round-3 wires may be missing from a driver that was built before them (fall-back driver after a broken tie)."""
+    if 'ok' not in W3:
+        try:
+            W3['ok'] = bool(ctx.model_ok) and ctx.model([[605, [0, 1]]])[0] == 1
+        except Exception:     # noqa: BLE001
+            W3['ok'] = False
+    return W3['ok']
+
+
 def run(ctx):
+    if not wires_present(ctx):
+        ctx.extra['round3_wires'] = 'missing from the model driver in use'
     run_findings(ctx)
     if ctx.model_ok:
         tie_intersect(ctx)
@@ -1331,6 +1611,9 @@ def run(ctx):
         tie_chunk_info(ctx)
         tie_getters(ctx)
         tie_view_store_get(ctx)
+        if wires_present(ctx):
+            tie_prefixes(ctx)
+    tie_names(ctx)
     rng = ctx.rng
     hist = [gen_history(rng) for _ in range(ctx.scale(100, 1500))]
     run_histories(ctx, hist)
@@ -1365,6 +1648,10 @@ def replay(ctx, doc):
         run_histories(ctx, [case], tag='c06rp')
     elif kind == 'options':
         tie_options(ctx, [case])
+    elif kind == 'names':
+        tie_names(ctx, [case])
+    elif kind == 'prefixes':
+        tie_prefixes(ctx, [case])
     elif kind == 'view_get':
         tie_view_store_get(ctx, [case])
         ctx.note_case(('view_get', repr(case)))
